@@ -483,7 +483,7 @@ pub fn run(ctx: &Ctx) -> Outcome {
     let m = AckModel::new(if quick { "acks-q" } else { "acks-t" }, quick);
     // peer data within the model never exceeds 50 octets per event and 3 events fit any window >= 7? no: PeerData is
     // enabled only while the peer view allows it
-    let rep = search(ctx, &m, "C14", if quick { 7 } else { 11 }, ctx.tier.budget_s(), true);
+    let rep = search(ctx, &m, "C14", if quick { 5 } else { 11 }, ctx.tier.budget_s(), true);
     fill_outcome(&mut out, &[(m.name, &rep)]);
     out.set("exhaustive", json!(false));
     out.set("alphabet", json!((0..m.n_events()).map(|e| m.event_name(e)).collect::<Vec<_>>()));
